@@ -112,6 +112,9 @@ def r1_weighted_tensor(ctx):
     src = canon_src(inner) if inner is not None else ""
     ok = "return $0.valued(f($0.filled(fill_value), *$args, **$kwargs))" in src
     ctx.check(ok, "C06.R1", fa, fa.node, "unary operators act on filled values and keep the weights", "the unary-operator factory no longer applies f to filled values and re-attaches the weights")
+    # (e) the module-level helpers the variable graphs are built with
+    from ._shared import weighted_helper_forms
+    weighted_helper_forms(ctx, "C06.R1")
     gf = ix.func(WT, "WeightedTensor.get_filled_value_and_weight", "C06.R1")
     ok = "(t.filled(fill_value), t.weight)" in U(gf.node) or "t.filled(fill_value), t.weight" in U(gf.node)
     ctx.check(ok, "C06.R1", gf, gf.node, "filled value returned together with the weight", "get_filled_value_and_weight no longer returns the filled value with its weight")
